@@ -459,7 +459,7 @@ theorem sideloaded_adds_same_areas (ctx : Ctx) (x : Sideloaded) (hv : x.valid ct
     | none => rfl
     | some r => simp [(hr r rfl).1, (hr r rfl).2]
 
-/-- D53: annotations requested for the current run that differ from the stored ones stop the run;
+/-- D56: annotations requested for the current run that differ from the stored ones stop the run;
     a `reuse` therefore means: nothing requested, or exactly the stored annotations requested -/
 theorem sideloaded_changed_request_refused (ctx : Ctx) (j : J) (x r : Sideloaded)
     (hj : Sideloaded.fromJson ctx j = .reuse x) (hne : j ≠ .obj [])
